@@ -208,7 +208,9 @@ def dynamic_rule(ctx):
         inc = [i for i, n in enumerate(nodes) if n.get("k") == "binary" and n["op"] == "+=" and "inside_dynamic_tree" in sir.expr_str(n["l"])]
         dec = [i for i, n in enumerate(nodes) if n.get("k") == "binary" and n["op"] == "-=" and "inside_dynamic_tree" in sir.expr_str(n["l"])]
         values = [i for i, n in enumerate(nodes) if n.get("k") == "mcall" and n["m"] == "for_each_value_mut"]
-        rec = [i for i, n in enumerate(nodes) if n.get("k") == "mcall" and n["m"] == f.name and sir.expr_str(n["recv"]) != "self" and len(n["args"]) == 1]
+        rec_helpers = set(g_.name for g_ in tc.fns if g_.body and g_ is not f and g_.name != f.name and any(x.get("k") == "mcall" and x["m"] == f.name for x in sir.walk(g_.body)) and "parse" in g_.module)
+        rec = [i for i, n in enumerate(nodes) if (n.get("k") == "mcall" and n["m"] == f.name and sir.expr_str(n["recv"]) != "self" and len(n["args"]) == 1)
+               or (n.get("k") in ("call", "mcall") and (sir.call_name(n) or "").split("::")[-1] in rec_helpers)]
         guarded = True
         pm = sir.parent_map(f.body)
         for i in inc + dec:
